@@ -128,6 +128,12 @@ func get(ctx context.Context, root *mvsProject, resolver *Resolver, query versio
 		buildList, err = mvs.Upgrade(ctx, root.Version, reqs, version)
 	case 1:
 		buildList, err = mvs.Downgrade(ctx, root.Version, reqs, version)
+		if err == nil && !slices.Contains(buildList, version) {
+			// The requested version cannot be selected (e.g. it requires a newer version of
+			// its own project, or it cannot be loaded). Dropping the requirement silently
+			// is never what the user asked for.
+			err = fmt.Errorf("cannot downgrade %v to %v", version.Path, version.Version)
+		}
 	}
 	if err != nil {
 		return nil, err
